@@ -9,6 +9,7 @@
 #include "erasure_code.h"
 #include "mem_routines.h"
 #include "igzip_lib.h"
+#include "gf_vect_mul.h"
 
 extern "C" uint32_t crc32_iscsi_base(unsigned char *buffer, int len, unsigned int crc_init);
 extern "C" uint32_t adler32_base(uint32_t init, const unsigned char *buf, uint64_t len);
@@ -69,7 +70,7 @@ struct Kern {
 
         bool op(const Json &o)
         {
-                int kind = (int) ((uint64_t) o.ai(0) % 10);
+                int kind = (int) ((uint64_t) o.ai(0) % 11);
                 size_t len = (size_t) ((uint64_t) o.ai(1) % 70000);
                 int place = (int) o.ai(2);
                 uint64_t seed = (uint64_t) o.ai(3);
@@ -310,6 +311,75 @@ struct Kern {
                         h.sigmix(hash_str(fn) ^ (uint64_t) k << 24 ^ (uint64_t) rows << 16 ^ (l % 257));
                         break;
                 }
+                case 10: { // single-source update family: ec_encode_data_update / gf_vect_mad / gf_vect_mul
+                        int k = 1 + sub % 12, rows = 1 + (sub / 12) % 5, vi = (int) (seed % k);
+                        size_t l = len % 5000;
+                        int which = (int) ((seed >> 8) % 3);
+                        if (which == 1 && l < 64)
+                                l += 64; // documented minimum for gf_vect_mad
+                        if (which == 2)
+                                l &= ~(size_t) 31; // gf_vect_mul: len and buffers 32-byte aligned
+                        std::vector<uint8_t> coef((size_t) k * rows);
+                        for (auto &c : coef)
+                                c = (uint8_t) r.u64();
+                        Slot *sc = g_arena.alloc(coef.size(), PLACE_END, "coeffs", 0, 1), *st = g_arena.alloc((size_t) 32 * k * rows, PLACE_END, "gftbls", fill + 3, 1), *stb = g_arena.alloc((size_t) 32 * k * rows, PLACE_END, "gftbls_base", fill + 4, 1);
+                        Slot *src = buf(l, place, "upd_src", r, 32);
+                        Slot *dp = g_arena.alloc(sizeof(void *) * rows, PLACE_END, "dst_ptrs", 0, 8), *dpb = g_arena.alloc(sizeof(void *) * rows, PLACE_END, "dst_ptrs_base", 0, 8);
+                        if (!sc || !st || !stb || !src || !dp || !dpb)
+                                return false;
+                        memcpy(sc->data, coef.data(), coef.size());
+                        unsigned char **dst = (unsigned char **) dp->data, **dstb = (unsigned char **) dpb->data;
+                        std::vector<Slot *> d(rows), db(rows);
+                        for (int j = 0; j < rows; j++) {
+                                d[j] = buf(l, place + j + 1, "upd_dst", r, 32);
+                                db[j] = g_arena.alloc(l, PLACE_END, "upd_dst_base", 0, 32);
+                                if (!d[j] || !db[j])
+                                        return false;
+                                memcpy(db[j]->data, d[j]->data, l);
+                                dst[j] = d[j]->data;
+                                dstb[j] = db[j]->data;
+                        }
+                        const char *fn = which == 0 ? "ec_encode_data_update" : which == 1 ? "gf_vect_mad" : "gf_vect_mul";
+                        int mr = 0;
+                        if (which == 0) {
+                                if (GUARDED(gc, {
+                                            ec_init_tables(k, rows, sc->data, st->data);
+                                            ec_encode_data_update((int) l, k, rows, vi, st->data, src->data, dst);
+                                    }))
+                                        return fault(fn);
+                                ec_init_tables_base(k, rows, sc->data, stb->data);
+                                ec_encode_data_update_base((int) l, k, rows, vi, stb->data, src->data, dstb);
+                        } else if (which == 1) {
+                                ec_init_tables_base(k, rows, sc->data, stb->data);
+                                if (GUARDED(gc, gf_vect_mad((int) l, k, vi, stb->data, src->data, dst[0])))
+                                        return fault(fn);
+                                gf_vect_mad_base((int) l, k, vi, stb->data, src->data, dstb[0]);
+                                rows = 1;
+                        } else {
+                                if (((uintptr_t) src->data & 31) || ((uintptr_t) d[0]->data & 31))
+                                        return true;
+                                gf_vect_mul_init(coef[0], stb->data);
+                                if (GUARDED(gc, mr = gf_vect_mul((int) l, stb->data, src->data, dst[0])))
+                                        return fault(fn);
+                                gf_vect_mul_base((int) l, stb->data, src->data, dstb[0]);
+                                rows = 1;
+                        }
+                        uint64_t ph = 0;
+                        for (int j = 0; j < rows; j++) {
+                                if (!g_arena.canary_ok(d[j])) {
+                                        rr.fail("C05.canary", strf("%s wrote outside output block %d", fn, j));
+                                        return false;
+                                }
+                                if (memcmp(d[j]->data, db[j]->data, l)) {
+                                        disagree(fn, hash_bytes(d[j]->data, l) & 0xffff, hash_bytes(db[j]->data, l) & 0xffff, l);
+                                        return false;
+                                }
+                                ph = hash_bytes(d[j]->data, l, ph);
+                        }
+                        h.rec(fn, { k, rows, vi, (int64_t) l, mr, (int64_t) ph });
+                        h.sigmix(hash_str(fn) ^ (uint64_t) k << 24 ^ (uint64_t) rows << 16 ^ (l % 257));
+                        break;
+                }
                 case 7: { // histogram collector on an exact-size buffer
                         size_t l = len % 40000;
                         Slot *s = buf(l, place, "hist_in", r), *hs = g_arena.alloc(sizeof(struct isal_huff_histogram), PLACE_END, "histogram", 0, 8);
@@ -429,7 +499,7 @@ Json gen_kern_ops(Rng &r, int nops)
         for (int i = 0; i < nops; i++) {
                 Json o = Json::arr();
                 uint32_t len = r.chance(1, 2) ? r.pick(lens) : (uint32_t) r.logsize(69999);
-                o.push((int) r.below(10)).push(len).push((int) r.below(4)).push(r.u64() >> 20).push((int) r.below(64));
+                o.push((int) r.below(11)).push(len).push((int) r.below(4)).push(r.u64() >> 20).push((int) r.below(64));
                 ops.push(o);
         }
         return ops;
@@ -444,6 +514,7 @@ static Json gen_kern(Rng &r0, const std::string &focus, int tier)
         Json mem = Json::obj();
         mem.set("fill", r.u64() >> 24).set("regs", r.chance(1, 3) ? 0 : r.u64() >> 24).set("skip", r.chance(1, 2) ? 0 : (int) r.below(4096));
         p.set("mem", mem);
+        maybe_swarm_cpu(r, p, 1, 10);
         (void) tier;
         return p;
 }
